@@ -10,6 +10,7 @@ sys.path.insert(0, "/verif/replay")
 from lib import *
 from lsst.daf.relation import sql, ColumnExpression, ColumnContainer
 import sqlalchemy
+from direct import evx as D_evx
 
 
 def main():
@@ -36,7 +37,25 @@ def main():
                     n += 1
                     if got != want:
                         reproduced(f"x in {r!r}: SQL '{term.compile(compile_kwargs={'literal_binds': True})}' selects {got}, Python selects {want}")
-    not_reproduced(f"({n} ranges x {len(vals)} values on SQLite)")
+        # membership in a sequence of expressions (literals incl. repeated ones, column references, arithmetic)
+        b = Tag("b")
+        lit, ref = ColumnExpression.literal, ColumnExpression.reference
+        import itertools
+        seqs = []
+        for k in (0, 1, 2, 3, 4):
+            for combo in itertools.islice(itertools.product((-2, 0, 1, 3, 4), repeat=k), 0, 400):
+                seqs.append([lit(v) for v in combo])
+        seqs += [[lit(1), ref(a)], [ref(a).method("__add__", lit(1)), lit(0)], [lit(2).method("__neg__"), lit(5)]]
+        m = 0
+        for items in seqs:
+            pred = ColumnContainer.sequence(items).contains(ref(a))
+            term = E.convert_predicate(pred, ca)
+            got = sorted(x[0] for x in c.execute(sqlalchemy.select(t.columns["a"]).where(term)))
+            want = [v for v in vals if any(D_evx(i, {a: v}) == v for i in items)]
+            m += 1
+            if got != want:
+                reproduced(f"a in {[str(i) for i in items]}: SQL '{term.compile(compile_kwargs={'literal_binds': True})}' selects {got}, direct evaluation selects {want}")
+    not_reproduced(f"({n} ranges and {m} sequences x {len(vals)} values on SQLite)")
 
 
 main()
